@@ -62,6 +62,21 @@ def history(rng, t, oob_kind):
     return Prog(Fn("ix", [("k", "i32")], "i32", Ret(V("k"))), Fn("ix64", [("k", "i64")], "i64", Ret(V("k"))), Fn("ixu", [("k", "u32")], "u32", Ret(V("k"))), mk, Main(*body))
 
 
+def reassign_longer(t):
+    """fixed history: a dynamic array first bound to a SHORT literal is reassigned from a call / another variable / a call again, each LONGER, and
+    then indexed with compile-time-known indices that exist only in the new value"""
+    body = [Let("d", TD(t), ALit(I(t, 1), I(t, 1), I(t, 2))), Let("e", TD(t), ALit(*[I(t, 60 + k) for k in range(5)])),
+            Print(Idx(V("d"), I("i32", 2))),
+            Set(V("d"), Call("mk", I("i32", 6))), Print(Idx(V("d"), I("i32", 4))), Print(Idx(V("d"), I("i32", -5))), Print(Idx(V("d"), I("i32", 5))),
+            Set(Idx(V("d"), I("i32", 3)), I(t, 9)), Print(Idx(V("d"), I("i32", 3))),
+            Set(V("d"), V("e")), Print(Idx(V("d"), I("i32", 4))), Print(Idx(V("d"), I("i32", -4))),
+            Set(V("d"), ALit(I(t, 7), I(t, 8))), Print(Idx(V("d"), I("i32", 1))),
+            Set(V("d"), Call("mk", I("i32", 7))), Print(Idx(V("d"), I("i32", 6))), Print(Idx(V("d"), I("i32", -7))), Print(Len(V("d")))]
+    mk = Fn("mk", [("n", "i32")], TD(t), Let("r", TD(t), ALit(I(t, 0))), Let("j", "i32", I("i32", 1)),
+            While(Bin("lt", "i32", V("j"), V("n")), Append(V("r"), Cast("i32", t, Bin("mul", "i32", V("j"), I("i32", 3)))), Set(V("j"), Bin("add", "i32", V("j"), I("i32", 1)))), Ret(V("r")))
+    return Prog(mk, Main(*body))
+
+
 def opaque_ix(rng, i):
     """an index value the compiler cannot see through, of type i32, i64 or u32 (the wider types when the value needs them, or at random)"""
     if -2147483648 <= i <= 2147483647 and rng.below(3):
@@ -148,6 +163,8 @@ def main():
         t = rng.choice(["i32", "i64", "u8", "i16", "i32"])
         k = ["none", "read", "write"][i % 3]
         progs.append(history(rng, t, k)); kinds.append(k)
+    for t in ("i32", "i64", "u8", "i16"):
+        progs.append(reassign_longer(t)); kinds.append("none")
     names = list(KNOWN_PROBES)
     progs += [KNOWN_PROBES[k] for k in names]
     ms = model_run(progs)
